@@ -7,8 +7,11 @@ codec written here from RFC 7252 section 3 / RFC 7959 section 2.2.  Whatever spe
 (reordered arms, early returns, shared tails, tables, divmod, helpers, constructor keywords instead of attribute
 stores, comprehension instead of append loops) is therefore the same fact to these clauses; a spelling outside the
 evaluator's vocabulary is refused (exit 2), never guessed.  Clause a is decided over the escape analysis as before (a
-statement about all inputs; three engine limitations are worked around by local lemmas, each argued where it is
-defined) and additionally replays mutated datagrams; clause b evaluates the two receive functions on well-formed and
+statement about all inputs; engine limitations are worked around by local lemmas, each argued where it is defined:
+closed-enum arguments by value range, membership-guarded dict reads, methods of pure standard-library objects such as a
+precompiled struct.Struct, the generated namedtuple methods; a closed-enum construction whose argument cannot be
+bounded at all is refused, not reported) and additionally replays mutated datagrams, among them every value of each
+header byte; clause b evaluates the two receive functions on well-formed and
 malformed datagrams with recording stand-ins for their collaborators and keeps the CFG form where it is conclusive;
 clause h bounds the receive buffer from below through def-use.
 """
@@ -75,10 +78,11 @@ def interp(ctx, **kw):
     numbers/optionnumbers.py are replayed the first time the module is touched"""
     raw = raw_program(ctx.prog)
     # import-time statements that are replayed: strictly those of numbers/optionnumbers.py (where the formats are
-    # registered); tolerantly (statements outside the vocabulary are skipped and noted) those of the other modules a
-    # registration could be moved to
+    # registered); tolerantly (statements outside the vocabulary are skipped and noted) those of every other module --
+    # eagerly for the modules a registration could be moved to, for the rest when the evaluation first touches the
+    # module (a table filled by a module-level loop is the same table as one written as a display)
     others = {m for m in raw.modules if m == "aiocoap.numbers" or m.startswith("aiocoap.numbers.") or m in ("aiocoap.optiontypes", "aiocoap.options")}
-    I = K.Interp(raw, effect_modules={M_OPTNUM}, tolerant_effect_modules=others, **kw)
+    I = K.Interp(raw, effect_modules={M_OPTNUM}, tolerant_effect_modules=set(raw.modules), **kw)
     for m in sorted(others | {M_OPTNUM}):
         I.run_effects(m)
     if I.skipped_effects and not getattr(ctx, "_c01_skipnote", False):
@@ -188,9 +192,28 @@ def option_type_hints(prog):
     if prog.has_func(short):
         fn = prog.func(short).node
 
-        def is_format(e):
+        fi_ = prog.func(short)
+
+        def is_ot_class(e):
+            c = chain(e)
+            return bool(c) and prog.resolve_in_module(fi_.module, c) in ot
+
+        def is_format(e, depth=0):
+            """the expression denotes the option number's format, however it is obtained: the property, its getter, the
+            attribute behind it, getattr with an OptionType default, or a choice between such values"""
             e = resolve_local(fn, e)
-            return chain(e) == "self.format" or match("self._get_format()", e) is not None
+            if depth > 6:
+                return False
+            if chain(e) in ("self.format", "self._format") or match("self._get_format()", e) is not None:
+                return True
+            m_ = match("getattr(self, $n, $d)", e) or match("getattr(self, $n)", e)
+            if m_ is not None and isinstance(m_["n"], ast.Constant) and m_["n"].value in ("format", "_format"):
+                return "d" not in m_ or is_ot_class(m_["d"]) or is_format(m_["d"], depth + 1)
+            if isinstance(e, ast.IfExp):
+                return all(is_ot_class(x) or is_format(x, depth + 1) for x in (e.body, e.orelse))
+            if isinstance(e, ast.BoolOp) and isinstance(e.op, ast.Or):
+                return all(is_ot_class(x) or is_format(x, depth + 1) for x in e.values)
+            return False
         for n in walk_no_nested(fn):
             if isinstance(n, ast.Assign) and isinstance(n.value, ast.Call) and is_format(n.value.func):
                 hints[(short, "=" + (chain(n.value.func) or "?"))] = ot
@@ -342,15 +365,25 @@ def _enum_members(prog, ecls):
     return out
 
 
-def enum_arg_ok(EA, prog, fi, ecls, arg):
-    """the argument of a closed-enum construction is one of the member values whatever the input: the engine's own
-    bit-field lemma, or the operator-derived range of the (def-use resolved) expression is covered by the members"""
+def enum_arg_status(EA, prog, fi, ecls, arg):
+    """'ok': the argument of a closed-enum construction is one of the member values whatever the input (the engine's
+    own bit-field lemma, or the operator-derived range of the def-use resolved expression is covered by the members);
+    'out': its operator-derived range is known and contains a non-member; 'unknown': no range can be derived from the
+    expression (a field of an object, a capture of a pattern, a value returned by a call that is not expanded)"""
     arg = resolve_value(fi.node, arg)
     if EA._enum_arg_in_range(fi, ecls, arg):
-        return True
+        return "ok"
     rng = int_range(fi.node, arg)
     mem = _enum_members(prog, ecls)
-    return bool(rng and mem is not None and rng[1] - rng[0] < 4096 and set(range(rng[0], rng[1] + 1)) <= mem)
+    if not rng or mem is None:
+        return "unknown"
+    if rng[1] - rng[0] < 4096 and set(range(rng[0], rng[1] + 1)) <= mem:
+        return "ok"
+    return "out"
+
+
+def enum_arg_ok(EA, prog, fi, ecls, arg):
+    return enum_arg_status(EA, prog, fi, ecls, arg) == "ok"
 
 
 def closed_enum_lemma(ctx, EA, es, entry):
@@ -360,9 +393,13 @@ def closed_enum_lemma(ctx, EA, es, entry):
     the argument is a parameter, at the call sites: if every call in the closure of the entry that reaches this function
     passes, for each parameter the argument can come from, nothing / None (the callee's own None test is pruned by the
     call-site specialisation) or a value covered by the members, the construction cannot raise.  Returns the ast call
-    nodes proven infeasible."""
+    nodes proven infeasible, and the escapes that stay *undecided*: no range at all can be derived for the argument (and
+    none of the call sites passes a value known to be outside the members).  An undecided construction is neither a
+    refuted nor a discharged obligation: the clause refuses it (after the replay, which reports the escape as a
+    violation if an evaluated datagram triggers it)."""
     prog = ctx.prog
     dead = []
+    undecided = []
     closure = [prog.funcs[q] for q, *_ in EA.memo if q in prog.funcs]
     for e in es:
         if e.cls != "ValueError":
@@ -376,16 +413,18 @@ def closed_enum_lemma(ctx, EA, es, entry):
             ecls = EA.res.class_of_name(ofi, chain(call.func) or "")
             if not ecls or not EA._closed_enum(ecls):
                 continue
-            if enum_arg_ok(EA, prog, ofi, ecls, call.args[0]):
+            status = enum_arg_status(EA, prog, ofi, ecls, call.args[0])
+            if status == "ok":
                 dead.append(call)
                 ctx.note("L4 by value range: %s in %s cannot raise" % (e.text, e.func))
                 continue
-            if ofi.cls is None or ofi.name != "__init__":
+            if status == "out":
                 continue
-            srcs = _param_sources(ofi, call.args[0])
+            srcs = _param_sources(ofi, call.args[0]) if ofi.cls is not None and ofi.name == "__init__" else None
             if not srcs:
+                undecided.append(e)
                 continue
-            ok, nsites = True, 0
+            ok, nsites, out_of_range = True, 0, False
             for cf in closure:
                 for c2 in calls_in(cf.node):
                     callees, kind = EA.res.resolve_callees(cf, c2)
@@ -402,12 +441,16 @@ def closed_enum_lemma(ctx, EA, es, entry):
                         a = given.get(p)
                         if a is None or (isinstance(a, ast.Constant) and a.value is None):
                             continue
-                        if not enum_arg_ok(EA, prog, cf, ecls, a):
+                        st_ = enum_arg_status(EA, prog, cf, ecls, a)
+                        if st_ != "ok":
                             ok = False
+                            out_of_range = out_of_range or st_ == "out"
             if ok and nsites:
                 dead.append(call)
                 ctx.note("L4 at the call sites: %s in %s cannot raise, all %d call site(s) in the closure of %s pass a value covered by the members" % (e.text, e.func, nsites, entry))
-    return dead
+            elif not out_of_range:
+                undecided.append(e)
+    return dead, undecided
 
 
 def _norm_text(fnode, e):
@@ -474,6 +517,124 @@ def membership_guard_lemma(ctx, EA, es):
     return dead
 
 
+# what the methods of a few pure standard-library objects can raise on behalf of the parser (the documented behaviour of
+# the types; an object whose buffer was closed is not considered: nothing in a parser closes its own input)
+HOST_METHOD_RAISES = {
+    "struct.Struct": {"unpack": ["struct.error"], "unpack_from": ["struct.error"], "iter_unpack": ["struct.error"], "pack": ["struct.error"], "pack_into": ["struct.error"]},
+    "io.BytesIO": {m: [] for m in ("read", "read1", "readinto", "write", "getvalue", "getbuffer", "tell", "seek", "truncate", "close", "readline")},
+}
+
+
+def namedtuple_fields(prog, clsqn):
+    """field names of a repository class derived from collections.namedtuple(name, fields) (constant fields) or
+    typing.NamedTuple (annotated names of the body); None for any other class"""
+    for q in prog.mro(clsqn):
+        ci = prog.classes.get(q)
+        if ci is None:
+            continue
+        for b in ci.node.bases:
+            if isinstance(b, ast.Call) and (prog.resolve_in_module(ci.module, chain(b.func) or "?") == "collections.namedtuple") and len(b.args) >= 2:
+                try:
+                    f = consteval(b.args[1])
+                except NormError:
+                    return None
+                if isinstance(f, str):
+                    f = f.replace(",", " ").split()
+                return list(f) if all(isinstance(x, str) for x in f) else None
+            if prog.resolve_in_module(ci.module, chain(b) or "?") == "typing.NamedTuple":
+                return [st.target.id for st in ci.node.body if isinstance(st, ast.AnnAssign) and isinstance(st.target, ast.Name)]
+    return None
+
+
+class HostReceiverEA(EscapeAnalysis):
+    """Engine work-around (exc.py resolves a method call only on receivers typed as repository classes, plus a list of
+    builtin container/str method names; `_HEADER.unpack_from(raw)` on a module-level `struct.Struct("!BBH")`, or
+    `stream.read(n)` on a local `io.BytesIO(raw)`, is 'unresolved' and the clause would refuse).  The receiver is typed
+    here by def-use -- a local bound once, or a module-level constant (also imported from another module of the package),
+    bound to a constructor call of one of the pure standard-library classes above -- and the call then contributes the
+    exceptions that class documents for the method, at the call site, so that the enclosing handlers filter them exactly
+    as they filter `struct.unpack(...)`."""
+
+    def _host_type(self, fi, e, depth=0):
+        if depth > 4:
+            return None
+        if isinstance(e, ast.Name) and not self.res._is_local(fi, e.id):
+            v = resolve_value(fi.node, e)
+            if v is not e:
+                return self._host_type(fi, v, depth + 1)
+            if writes_to_name(fi.node, e.id):
+                return None
+        if isinstance(e, ast.Call):
+            c = chain(e.func)
+            q = self.prog.resolve_in_module(fi.module, c) if c else None
+            return q if q in HOST_METHOD_RAISES else None
+        c = chain(e)
+        if not c or c.split(".")[0] in ("self", "cls"):
+            return None
+        q = self.prog.resolve_in_module(fi.module, c)
+        parts = q.split(".")
+        for i in range(len(parts) - 1, 0, -1):
+            mod = ".".join(parts[:i])
+            if mod in self.prog.modules and i == len(parts) - 1:
+                m = self.prog.modules[mod]
+                vals = [st.value for st in m.tree.body if isinstance(st, ast.Assign) and any(isinstance(t, ast.Name) and t.id == parts[i] for t in st.targets)]
+                vals += [st.value for st in m.tree.body if isinstance(st, ast.AnnAssign) and isinstance(st.target, ast.Name) and st.target.id == parts[i] and st.value is not None]
+                rebound = any(isinstance(n, ast.Global) and parts[i] in n.names for n in ast.walk(m.tree))
+                if len(vals) == 1 and not rebound and isinstance(vals[0], ast.Call):
+                    c2 = chain(vals[0].func)
+                    q2 = self.prog.resolve_in_module(m, c2) if c2 else None
+                    return q2 if q2 in HOST_METHOD_RAISES else None
+                return None
+        return None
+
+    def _namedtuple_api(self, fi, call):
+        """`C._make([a, b, c])` with as many elements as C has fields, `x._replace(f=v)` / `C._replace(x, f=v)` naming
+        fields of C, `x._asdict()`: the generated methods of a namedtuple class of the package; they raise nothing for
+        these argument shapes (the engine does not know the generated methods and reports them unresolved)"""
+        f = call.func
+        if f.attr not in ("_make", "_replace", "_asdict"):
+            return False
+        classes = set()
+        c = self.res.class_of_name(fi, chain(f.value) or "")
+        if c:
+            classes.add(c)
+        else:
+            classes |= set(self.res.infer(fi, f.value))
+        if not classes:
+            return False
+        for c in classes:
+            fields = namedtuple_fields(self.prog, c)
+            if fields is None:
+                return False
+            if f.attr == "_make":
+                a = resolve_value(fi.node, call.args[0]) if len(call.args) == 1 and not call.keywords else None
+                if not (isinstance(a, (ast.List, ast.Tuple)) and len(a.elts) == len(fields) and not any(isinstance(x, ast.Starred) for x in a.elts)):
+                    return False
+            elif f.attr == "_replace":
+                if any(k.arg is None or k.arg not in fields for k in call.keywords) or len(call.args) > 1:
+                    return False
+            elif call.args or call.keywords:
+                return False
+        return True
+
+    def _call(self, fi, call, shape, st):
+        f = call.func
+        if isinstance(f, ast.Attribute) and id(call) not in self.dead_nodes:
+            if self._namedtuple_api(fi, call):
+                self.external_calls["namedtuple.%s" % f.attr] = self.external_calls.get("namedtuple.%s" % f.attr, 0) + 1
+                return set()
+            t = self._host_type(fi, f.value)
+            if t is not None and f.attr in HOST_METHOD_RAISES[t]:
+                name = "%s.%s" % (t, f.attr)
+                self.external_calls[name] = self.external_calls.get(name, 0) + 1
+                out = set()  # calls inside the arguments are visited by the engine's own walk of the expression
+                from ..exc import Esc
+                for cls in HOST_METHOD_RAISES[t][f.attr]:
+                    out.add(Esc(cls, fi.short, call.lineno, stmt_text(call, 80)))
+                return out
+        return super()._call(fi, call, shape, st)
+
+
 def escape_clause(ctx, entry_short, what, extra_allowed=()):
     prog = ctx.prog
     hints, ot = option_type_hints(prog)
@@ -485,11 +646,13 @@ def escape_clause(ctx, entry_short, what, extra_allowed=()):
         ctx.need(isinstance(fmt, K.ClassRef) and fmt.qn in ot, "format %s registered for %s is not an OptionType subclass of optiontypes.py" % (short_name(fmt), name))
     ctx.need(isinstance(default, K.ClassRef) and default.qn in ot, "default option format is not an OptionType subclass")
     fi = prog.func(entry_short)
-    EA = EscapeAnalysis(prog, hints)
+    EA = HostReceiverEA(prog, hints)
     es = EA.escapes(fi)
-    dead = closed_enum_lemma(ctx, EA, es, entry_short) + membership_guard_lemma(ctx, EA, es)
+    dead, undecided = closed_enum_lemma(ctx, EA, es, entry_short)
+    dead = dead + membership_guard_lemma(ctx, EA, es)
+    undecided = {(e.cls, e.func, e.text) for e in undecided}
     if dead:
-        EA = EscapeAnalysis(prog, hints)
+        EA = HostReceiverEA(prog, hints)
         EA.dead_nodes.update(id(n) for n in dead)
         es = EA.escapes(fi)
     funcs = {k[0] for k in EA.memo}
@@ -509,11 +672,14 @@ def escape_clause(ctx, entry_short, what, extra_allowed=()):
     ctx.floor("explicit UnparsableMessage raise sites reaching %s" % entry_short, len(explicit), 4)
     allowed = {ALLOWED} | set(extra_allowed)
     bad = [e for e in es if not any(e.cls == a or prog.is_subclass(e.cls, a) for a in allowed)]
+    pending = sorted({"%s in %s" % (e.text, e.func) for e in bad if (e.cls, e.func, e.text) in undecided})
+    bad = [e for e in bad if (e.cls, e.func, e.text) not in undecided]
+    ctx._c01_undecided = pending
     for e in sorted(bad, key=repr):
         ofi = prog.funcs.get("aiocoap." + e.func)
         ctx.ob("%s: only error.UnparsableMessage may leave the parser" % what, False, ofi, fake(e.line), construct="%s: %s" % (e.cls, e.text),
                detail="escapes via %s" % " > ".join(e.via))
-    if not bad:
+    if not bad and not pending:
         ctx.ob("%s: the escape set of %s is a subset of {UnparsableMessage} (%d raise sites, %d functions)" % (what, entry_short, len(es), len(funcs)), True, fi, fi.node, construct=entry_short)
     return es
 
@@ -556,6 +722,14 @@ def a(ctx):
             if m not in seen:
                 seen.add(m)
                 cases.append(m)
+    # every value of each of the four header bytes (the fields decoded into closed enumerations live there)
+    for d in reference_datagrams()[1:3]:
+        for i in range(4):
+            for v in range(256):
+                m = d[:i] + bytes([v]) + d[i + 1:]
+                if m not in seen:
+                    seen.add(m)
+                    cases.append(m)
     escapes = {}
     for m in cases:
         o = K.run(I, dec, m)
@@ -566,6 +740,8 @@ def a(ctx):
         ctx.ob("datagram parser: only error.UnparsableMessage may leave the parser (replayed datagram)", False, fi, fi.node, construct="%s escapes Message.decode" % cls, detail="Message.decode(bytes.fromhex(%r)) raises %s" % (m.hex(), cls))
     if not escapes:
         ctx.ob("datagram parser: %d truncations / substitutions / insertions of reference datagrams are parsed or rejected with UnparsableMessage" % len(cases), True, fi, fi.node, construct="Message.decode replay")
+    pending = getattr(ctx, "_c01_undecided", [])
+    ctx.need(not pending, "construction of a closed enumeration whose argument cannot be bounded (it is a member on all %d replayed datagrams, but that is not all inputs): %s" % (len(cases), "; ".join(pending)))
 
 # ---------------------------------------------------------------------------
 # b: the transports
@@ -626,7 +802,15 @@ def check_site(ctx, fi, evaluated=False):
         ctx.ob("the transport catches error.UnparsableMessage around the parser", bool(hs), fi, c)
         disp = [cfg.loc1(d) for d in calls_in(fi.node) if (call_name(d) or "").endswith(".dispatch_message")]
         if not evaluated:
-            ctx.ob("the parsed message is dispatched", bool(disp), fi, c)
+            # a function that hands the parsed message back to its caller (a parsing helper that was not expanded) is
+            # not where the dispatch happens; the drop obligation below applies to it all the same
+            def is_site(v):
+                return v is c or (isinstance(v, ast.Name) and any(isinstance(w, ast.Assign) and w.value is c for w in writes_to_name(fi.node, v.id)))
+            hands_back = any(isinstance(n, ast.Return) and n.value is not None and is_site(n.value) for n in walk_no_nested(fi.node))
+            if not disp and hands_back:
+                ctx.note("%s returns the parsed message to its caller; the dispatch is not looked for in it" % fi.short)
+            else:
+                ctx.ob("the parsed message is dispatched", bool(disp), fi, c)
         for h in hs:
             hn = [n.id for n in cfg.nodes if n.kind == "handler" and n.ast is h]
             for x in hn:
@@ -652,7 +836,7 @@ def _is_logging(dotted):
     return any(p in ("log", "_log", "logger", "_logger", "logging", "_alglog") for p in parts[:-1]) or parts[-1] in ("debug", "info", "warning", "warn", "error", "exception", "critical")
 
 
-def receive_scenarios(ctx, short, make_args):
+def receive_scenarios(ctx, short, make_args, record=True):
     """The receive function of a transport, evaluated on an instance whose collaborators (logger, message manager, ...)
     are recording stand-ins: a well-formed datagram is handed to a collaborator exactly once, as a Message; a datagram
     the parser rejects is dropped -- no Message reaches any collaborator and no exception leaves the function.  All
@@ -667,7 +851,11 @@ def receive_scenarios(ctx, short, make_args):
         log = []
         me = K.Obj(cref)
         me._k_attrs["__k_fallback__"] = lambda name: K.AutoStub("self." + name, log)
-        r = K.run(I, I.getattr(me, fi.name), *make_args(datagram))
+        args = make_args(datagram)
+        for a_ in args:
+            if isinstance(a_, K.AutoStub):
+                a_._k_log = log  # stand-in arguments record into the same log as the object's collaborators
+        r = K.run(I, I.getattr(me, fi.name), *args)
         # logging is transparent (a message may be logged any number of times); everything else that receives a Message is a dispatch
         handed = [(n, x) for n, a, k in log if not _is_logging(n) for x in list(a) + list(k.values()) if isinstance(x, K.Obj) and x._k_cref is Message]
         return r, handed
@@ -680,15 +868,38 @@ def receive_scenarios(ctx, short, make_args):
         if r.ok and len(handed) == 1:
             m = handed[0][1]
             rows.append(("datagram %s: message handed on" % d.hex(), "mid %r payload %s" % (m._k_attrs.get("mid"), _hex(m._k_attrs.get("payload"))), "mid %r payload %s" % ((d[2] << 8) | d[3], (d.split(b"\xff", 1)[1] if b"\xff" in d else b"").hex())))
-    df = first_diff(rows)
-    ok1 = ctx.ob("the parsed message is dispatched", df is None, fi, fi.node, construct="%s: well-formed datagram" % fi.name, detail=df)
+    df1 = first_diff(rows)
     rows = []
     for what, d in MALFORMED_DATAGRAMS:
         r, handed = receive(d)
         rows.append(("%s (%s)" % (what, d.hex() or "-"), "%s, %d message(s) handed on" % ("returned" if r.ok else r.describe(), len(handed)), "returned, 0 message(s) handed on"))
-    df = first_diff(rows)
-    ok2 = ctx.ob("an unparsable datagram is dropped: nothing is dispatched and no exception continues (evaluated)", df is None, fi, fi.node, construct="%s: malformed datagram" % fi.name, detail=df)
+    df2 = first_diff(rows)
+    if not record and (df1 is not None or df2 is not None):
+        # generic stand-in arguments (sibling sweep): an evaluation that does not come out as expected may be due to the
+        # stand-ins, it decides nothing; the caller falls back to the CFG form
+        ctx.note("%s: evaluation with generic stand-in arguments is not conclusive (%s)" % (fi.short, df1 or df2))
+        return False
+    ok1 = ctx.ob("the parsed message is dispatched", df1 is None, fi, fi.node, construct="%s: well-formed datagram" % fi.name, detail=df1)
+    ok2 = ctx.ob("an unparsable datagram is dropped: nothing is dispatched and no exception continues (evaluated)", df2 is None, fi, fi.node, construct="%s: malformed datagram" % fi.name, detail=df2)
     return ok1 and ok2
+
+
+def generic_receive_args(ctx, fi):
+    """for a receive function the rule has no hand-written call for: the parameter that flows into Message.decode's
+    first argument is the datagram, every other parameter is a recording stand-in.  None if that parameter cannot be
+    told."""
+    ps = [p for p in params(fi) if p not in ("self", "cls")]
+    cands = set()
+    for c in decode_sites(ctx.prog, fi):
+        a = c.args[0] if c.args else next((k.value for k in c.keywords if k.arg == "rawdata"), None)
+        if a is None:
+            return None
+        a = resolve_value(fi.node, a)
+        cands |= {x.id for x in ast.walk(a) if isinstance(x, ast.Name) and x.id in ps}
+    if len(cands) != 1 or fi.cls is None or fi.is_async or fi.node.args.vararg or fi.node.args.kwarg or fi.node.args.kwonlyargs:
+        return None
+    which = cands.pop()
+    return lambda d: tuple(d if p == which else K.AutoStub("arg." + p, []) for p in ps)
 
 
 ADDR = ("2001:db8::1", 5683, 0, 0)
@@ -716,7 +927,16 @@ def b_thorough(ctx):
             continue
         if decode_sites(ctx.prog, fi):
             n += 1
-            check_site(ctx, fi)
+            # decided by evaluation where the function can be evaluated with generic stand-ins (then the CFG form is kept
+            # only where it is conclusive, as for the two anchors); by the CFG form alone otherwise
+            passed = False
+            make_args = generic_receive_args(ctx, fi)
+            if make_args is not None:
+                try:
+                    passed = receive_scenarios(ctx, fi.short, make_args, record=False)
+                except AnalysisError as e:
+                    ctx.note("%s: not evaluated (%s)" % (fi.short, e))
+            check_site(ctx, fi, evaluated=passed)
     ctx.floor("sibling Message.decode call sites", n, 2)
 
 # ---------------------------------------------------------------------------
@@ -1371,3 +1591,4 @@ R.seed("C01.d", F_O, "        if len(rawdata) < 2:\n            raise Unparsable
 R.seed("C01.d", F_O, "            if rawdata[0] == 0xFF:\n                return rawdata[1:]", "            if rawdata[0] == 0xFF:\n                return rawdata", "payload marker returned as part of the payload")
 R.seed("C01.e", F_T, "        self.value = int.from_bytes(rawdata, \"big\")", "        self.value = int.from_bytes(rawdata, \"little\")", "uint option read little endian")
 R.seed("C01.a", F_O, "            except UnicodeDecodeError:\n                raise UnparsableMessage(\"Option value is not valid UTF-8\")", "            except UnicodeEncodeError:\n                raise UnparsableMessage(\"Option value is not valid UTF-8\")", "invalid UTF-8 in a string option escapes as UnicodeDecodeError")
+R.seed("C01.a", F_M, "        mtype = (vttkl & 0x30) >> 4", "        mtype = (vttkl & 0x70) >> 4", "type field read from three bits: Type(4..7) raises ValueError out of the parser")
